@@ -117,7 +117,7 @@ def check(ctx, rep):
     _sigil_survives(ctx, rep)
     from . import c12, c10, _share
     _share.share(ctx, rep, c10, ('temporaries.boundary', 'roots.argument'), 'a live string is never treated as a temporary or read after it may have been collected (assigning one variable must not change another)')
-    _share.share(ctx, rep, c12, ('index.',), 'distinct in-bounds subscript tuples get distinct element offsets (mixed-radix numeral)')
+    _share.share(ctx, rep, c12, ('index.', 'allocate.checks-what-it-takes'), 'distinct in-bounds subscript tuples get distinct element offsets (mixed-radix numeral)')
     total_checked = 0
     n_fn = 0
     for (path, cname), cfg in sorted(PER_CLASS.items()):
